@@ -254,3 +254,227 @@ Section Accepted.
     apply (topo_split prims m order Htopo).
   Qed.
 End Accepted.
+
+Theorem methods_stacked_acc : forall prims m r, translate prims m = Ok r ->
+  exists mmap : list (name * list (ident name)),
+    forall c, In c m ->
+      exists ci, class_ir r (c_name c) = Some ci
+        /\ i_methods ci = map pair_owner (lk (c_name c) mmap)
+        /\ (i_is_cp ci = false ->
+              let inh := flat_map (fun b => lk b mmap) (c_bases c) in
+              lk (c_name c) mmap = inh ++ own_ids (c_name c) (c_methods c)
+              /\ NoDup (map id_val inh)
+              /\ forall x, In x (own_ids (c_name c) (c_methods c)) ->
+                           ~ In (id_val x) (map id_val inh)).
+Proof.
+  intros prims m r H. pose proof (accepted_wf prims m r H) as Hwf. pose proof Hwf as [Hnd _].
+  destruct (translate_inv prims m r H)
+    as [order [anc [smap [mmap [kmap [ifm [Hpo [Et [Ea [Hs [Hpv [Hm [Hk [Hi [Hv ->]]]]]]]]]]]]]]].
+  exists mmap. intros c Hc. eexists. split.
+  { unfold class_ir. cbn [r_classes]. apply find_map_name; [intro x; reflexivity | exact Hnd | exact Hc]. }
+  cbn [ir_of i_methods i_is_cp]. split; [reflexivity|]. intro Hcp.
+  apply (methods_fold_thm prims m anc Hwf order mmap Et Hm c Hc Hcp).
+Qed.
+
+(** * Who contributes to a stacked list: exactly the class itself and its ancestors *)
+Lemma dedup_acc_incl : forall (A : Type) (eqb : A -> A -> bool) l seen x,
+  In x (dedup_acc eqb seen l) -> In x l.
+Proof.
+  intros A eqb. induction l as [|y l IH]; intros seen x H; cbn [dedup_acc] in H; [destruct H|].
+  destruct (existsb (eqb y) seen).
+  - right. eapply IH. exact H.
+  - destruct H as [<-|H]; [left; reflexivity | right; eapply IH; exact H].
+Qed.
+
+Lemma dedup_acc_complete : forall (A : Type) (eqb : A -> A -> bool),
+  (forall a, eqb a a = true) ->
+  forall l seen x, In x l ->
+    (exists s, In s seen /\ eqb x s = true) \/ (exists y, In y (dedup_acc eqb seen l) /\ eqb x y = true).
+Proof.
+  intros A eqb Hrefl. induction l as [|z l IH]; intros seen x Hx; [destruct Hx|].
+  cbn [dedup_acc]. destruct (existsb (eqb z) seen) eqn:E.
+  - destruct Hx as [<-|Hx].
+    + left. apply existsb_exists in E. destruct E as [s [Hs Es]]. exists s. split; assumption.
+    + apply IH. exact Hx.
+  - destruct Hx as [<-|Hx].
+    + right. exists z. split; [left; reflexivity | apply Hrefl].
+    + destruct (IH (z :: seen) x Hx) as [[s [[<-|Hs] Es]]|[y [Hy Ey]]].
+      * right. exists z. split; [left; reflexivity | exact Es].
+      * left. exists s. split; assumption.
+      * right. exists y. split; [right; exact Hy | exact Ey].
+Qed.
+
+Lemma id_eqb_refl : forall (A : Type) (x : ident A), id_eqb x x = true.
+Proof. intros A x. unfold id_eqb. rewrite text_eqb_refl, Nat.eqb_refl. reflexivity. Qed.
+
+Lemma id_eqb_true : forall (A : Type) (x y : ident A),
+  id_eqb x y = true -> id_owner x = id_owner y /\ id_idx x = id_idx y.
+Proof.
+  intros A x y H. unfold id_eqb in H. apply andb_true_iff in H. destruct H as [H1 H2].
+  apply text_eqb_eq in H1. apply Nat.eqb_eq in H2. split; assumption.
+Qed.
+
+Lemma number_from_In : forall (A : Type) o (l : list A) i x,
+  In x (number_from o i l) -> id_owner x = o /\ i <= id_idx x.
+Proof.
+  intros A o. induction l as [|v l IH]; intros i x H; cbn [number_from] in H; [destruct H|].
+  destruct H as [<-|H]; [cbn; split; [reflexivity | lia]|].
+  apply IH in H. destruct H as [H1 H2]. split; [exact H1 | lia].
+Qed.
+
+Lemma number_from_fun : forall (A : Type) o (l : list A) i x y,
+  In x (number_from o i l) -> In y (number_from o i l) -> id_idx x = id_idx y -> x = y.
+Proof.
+  intros A o. induction l as [|v l IH]; intros i x y Hx Hy E; cbn [number_from] in *; [destruct Hx|].
+  destruct Hx as [<-|Hx]; destruct Hy as [<-|Hy].
+  - reflexivity.
+  - apply number_from_In in Hy. cbn in E. destruct Hy as [_ Hy]. lia.
+  - apply number_from_In in Hx. cbn in E. destruct Hx as [_ Hx]. lia.
+  - eapply IH; eassumption.
+Qed.
+
+Lemma names_inj : forall m a b, NoDup (names m) -> In a m -> In b m -> c_name a = c_name b -> a = b.
+Proof.
+  intros m a b Hnd Ha Hb E. pose proof (find_class_unique m a Hnd Ha) as H1.
+  pose proof (find_class_unique m b Hnd Hb) as H2. rewrite E in H1. congruence.
+Qed.
+
+Section Members.
+  Variable prims : list name.
+  Variable m : mm.
+  Variable A : Type.
+  Variable skip : name -> bool.
+  Variable own : cls -> list A.
+
+  (** [reach c a]: [a] is [c] or is reached from [c] through bases, passing only through
+      classes that take part in the stacking. *)
+  Inductive reach : name -> name -> Prop :=
+  | reach_refl : forall c, reach c c
+  | reach_step : forall c b a, skip c = false -> base prims m c b -> reach b a -> reach c a.
+
+  Hypothesis Hwf : wf prims m.
+  Variable order : list name.
+  Hypothesis Et : topo_sort prims m = Ok order.
+
+  Let final := stack_ids prims m skip own order.
+
+  Definition contributed (n : name) (x : ident A) : Prop :=
+    exists a, In a m /\ reach n (c_name a) /\ In x (own_ids (c_name a) (own a)).
+
+  Lemma members_sound : forall c, In c m ->
+    forall x, In x (lk (c_name c) final) -> contributed (c_name c) x.
+  Proof.
+    intros c Hc. destruct Hwf as [_ [_ [rank Hrank]]].
+    (* the bound: any rank function is bounded on the finitely many classes; we use the
+       given one to pick k, but the statement of [members_sound] quantifies over all ranks,
+       so instantiate it through a fixed one *)
+    assert (Hgen : forall k, rank (c_name c) < k ->
+              forall x, In x (lk (c_name c) final) -> contributed (c_name c) x).
+    { intros k Hk. revert c Hc Hk.
+      induction k as [|k IH]; intros c Hc Hk x Hx; [lia|].
+      destruct Hwf as [Hnd [Hbases _]].
+      pose proof (stacked_fold_thm prims m A skip own Hwf order Et c Hc) as Heq.
+      cbv zeta in Heq. fold final in Heq. rewrite Heq in Hx.
+      destruct (skip (c_name c)) eqn:Es.
+      - exists c. split; [exact Hc|]. split; [apply reach_refl | exact Hx].
+      - apply in_app_or in Hx. destruct Hx as [Hx|Hx].
+        + apply dedup_acc_incl in Hx. apply in_flat_map in Hx. destruct Hx as [b [Hb Hx]].
+          destruct (find_class_In m b (Hbases c b Hc Hb)) as [bc Hbc].
+          pose proof (find_class_Some _ _ _ Hbc) as [Hbcm Hbcn]. subst b.
+          destruct (IH bc Hbcm) with (x := x) as [a [Ha [Hr Hin]]].
+          * pose proof (Hrank c (c_name bc) Hc Hb). lia.
+          * exact Hx.
+          * exists a. split; [exact Ha|]. split; [|exact Hin].
+            eapply reach_step; [exact Es | | exact Hr].
+            exists c. split; [apply find_class_unique; assumption | exact Hb].
+        + exists c. split; [exact Hc|]. split; [apply reach_refl | exact Hx]. }
+    apply (Hgen (S (rank (c_name c)))). lia.
+  Qed.
+
+  Lemma contributed_eq : forall n1 n2 x y,
+    contributed n1 x -> contributed n2 y -> id_eqb x y = true -> x = y.
+  Proof.
+    intros n1 n2 x y [a [Ha [_ Hx]]] [b [Hb [_ Hy]]] E.
+    destruct Hwf as [Hnd _]. apply id_eqb_true in E. destruct E as [Eo Ei].
+    unfold own_ids in Hx, Hy.
+    pose proof (number_from_In _ _ _ _ _ Hx) as [Hox _].
+    pose proof (number_from_In _ _ _ _ _ Hy) as [Hoy _].
+    assert (a = b) by (apply (names_inj m a b Hnd Ha Hb); congruence). subst b.
+    eapply number_from_fun; eassumption.
+  Qed.
+
+  Lemma members_complete : forall n an, reach n an ->
+    forall c a, In c m -> c_name c = n -> In a m -> c_name a = an ->
+    forall x, In x (own_ids (c_name a) (own a)) -> In x (lk (c_name c) final).
+  Proof.
+    pose proof Hwf as [Hnd [Hbases _]].
+    intros n an Hr. induction Hr as [n|n b an Hs Hb Hr IH]; intros c a Hc Ecn Ha Ean x Hx.
+    - assert (a = c) by (apply (names_inj m a c Hnd Ha Hc); congruence). subst a.
+      pose proof (stacked_fold_thm prims m A skip own Hwf order Et c Hc) as Heq.
+      cbv zeta in Heq. fold final in Heq. rewrite Heq.
+      destruct (skip (c_name c)); [exact Hx | apply in_or_app; right; exact Hx].
+    - pose proof (stacked_fold_thm prims m A skip own Hwf order Et c Hc) as Heq.
+      cbv zeta in Heq. fold final in Heq. rewrite Heq. rewrite Ecn, Hs.
+      apply in_or_app. left.
+      destruct Hb as [cl [Hcl Hbb]]. rewrite <- Ecn in Hcl.
+      rewrite (find_class_unique m c Hnd Hc) in Hcl. injection Hcl as <-.
+      destruct (find_class_In m b (Hbases c b Hc Hbb)) as [bc Hbc].
+      pose proof (find_class_Some _ _ _ Hbc) as [Hbcm Hbcn].
+      pose proof (IH bc a Hbcm Hbcn Ha Ean x Hx) as Hxb. rewrite Hbcn in Hxb.
+      set (L := flat_map (fun b0 => lk b0 final) (class_bases prims c)).
+      assert (HxL : In x L) by (apply in_flat_map; exists b; split; assumption).
+      destruct (dedup_acc_complete _ id_eqb (id_eqb_refl A) L [] x HxL) as [[s [[] _]]|[y [Hy Ey]]].
+      assert (HyL : In y L) by (eapply dedup_acc_incl; exact Hy).
+      apply in_flat_map in HyL. destruct HyL as [b' [Hb' Hyb']].
+      destruct (find_class_In m b' (Hbases c b' Hc Hb')) as [bc' Hbc'].
+      pose proof (find_class_Some _ _ _ Hbc') as [Hbcm' Hbcn']. subst b'.
+      assert (Hcy : contributed (c_name bc') y) by (apply members_sound; assumption).
+      assert (Hcx : contributed (c_name bc) x).
+      { rewrite <- Hbcn in Hxb. apply members_sound; assumption. }
+      rewrite (contributed_eq _ _ x y Hcx Hcy Ey). exact Hy.
+  Qed.
+
+  (** The stacked list of a class consists exactly of the own items of the class and of
+      the classes it reaches through its bases. *)
+  Theorem stacked_members_thm : forall c, In c m -> forall x,
+    In x (lk (c_name c) final) <-> contributed (c_name c) x.
+  Proof.
+    intros c Hc x. split; [apply members_sound; exact Hc|].
+    intros [a [Ha [Hr Hx]]]. eapply members_complete; try eassumption; reflexivity.
+  Qed.
+End Members.
+
+Lemma reach_all_iff : forall prims m c a,
+  reach prims m (fun _ => false) c a <-> c = a \/ clos_trans name (base prims m) c a.
+Proof.
+  intros prims m c a. split.
+  - intro H. induction H as [c|c b a _ Hb _ IH]; [left; reflexivity|].
+    right. destruct IH as [<-|IH]; [apply t_step; exact Hb|].
+    eapply t_trans; [apply t_step; exact Hb | exact IH].
+  - intros [<-|H]; [apply reach_refl|].
+    apply clos_trans_t1n in H. induction H as [c b Hb|c b a Hb _ IH].
+    + eapply reach_step; [reflexivity | exact Hb | apply reach_refl].
+    + eapply reach_step; [reflexivity | exact Hb | exact IH].
+Qed.
+
+Theorem invariants_members_acc : forall prims m r, translate prims m = Ok r ->
+  exists imap : list (name * list (ident name)),
+    forall c, In c m ->
+      exists ci, class_ir r (c_name c) = Some ci
+        /\ i_invs ci = map pair_owner (lk (c_name c) imap)
+        /\ forall x, In x (lk (c_name c) imap) <->
+             exists a, In a m
+               /\ (c_name c = c_name a \/ clos_trans name (base prims m) (c_name c) (c_name a))
+               /\ In x (own_ids (c_name a) (c_invs a)).
+Proof.
+  intros prims m r H. pose proof (accepted_wf prims m r H) as Hwf. pose proof Hwf as [Hnd _].
+  destruct (translate_inv prims m r H)
+    as [order [anc [smap [mmap [kmap [ifm [Hpo [Et [Ea [Hs [Hpv [Hm [Hk [Hi [Hv ->]]]]]]]]]]]]]]].
+  exists (stack_invariants prims m order). intros c Hc. eexists. split.
+  { unfold class_ir. cbn [r_classes]. apply find_map_name; [intro x; reflexivity | exact Hnd | exact Hc]. }
+  cbn [ir_of i_invs]. split; [reflexivity|]. intro x.
+  unfold stack_invariants.
+  rewrite (stacked_members_thm prims m name (fun _ => false) c_invs Hwf order Et c Hc x).
+  unfold contributed. split; intros [a [Ha [Hr Hx]]]; exists a; (split; [exact Ha|]); (split; [|exact Hx]);
+    apply reach_all_iff; exact Hr.
+Qed.
